@@ -84,6 +84,8 @@ def decoders : List (String × Dec) := [
       pure (verdict (do let ps ← pids; Parser.parseSpacePackets [raw] ps))),
   -- PUS
   ("tc", fun _ raw => pure (verdict (PusTc.Tc.unpack raw))),
+  ("tc_sec", fun _ raw => pure (verdict (PusTc.TcSec.unpack raw))),
+  ("tm_sec", fun j raw => do pure (verdict (PusTm.TmSec.unpack raw (← getNat j "ts_len")))),
   ("tm", fun j raw => do pure (verdict (PusTm.Tm.unpack raw (← getNat j "ts_len")))),
   ("s17", fun j raw => do pure (verdict (PusTm.srv17Unpack raw (← getNat j "ts_len")))),
   ("tm_service", fun _ raw => pure (verdict (PusTm.serviceFromBytes raw))),
